@@ -98,6 +98,8 @@ def locate (f : Bytes) : Except PyErr (Option Loc) :=
         let data := endd - size
         let hasHdr := flags / hasHeaderFlag % 2 = 1
         if hasHdr ∧ data < 32 then .error .mutagen
+        -- `self.size -= 32` (the footer is not part of the data): "APE tag size smaller than its footer"
+        else if size < 32 then .error .mutagen
         else
           let header := if hasHdr then data - 32 else data
           .ok (some { start := fixBroken f header header, endd := endd, isAtStart := false })
@@ -108,6 +110,9 @@ def locate (f : Bytes) : Except PyErr (Option Loc) :=
       let size := ofLE ((d.drop 4).take 4)
       -- "APE tag size exceeds the file size"
       if 32 + size > f.length then .error .mutagen
+      -- seek(end - 32); read(8) == "APETAGEX": there is a footer, and `self.size -= 32`:
+      -- "APE tag size smaller than its footer"
+      else if isApeAt f (32 + size - 32) ∧ size < 32 then .error .mutagen
       else .ok (some { start := 0, endd := 32 + size, isAtStart := true })
 
 /-- `APEv2.save` given the rendered tag (`[]` when there are no items: nothing is written) -/
